@@ -64,7 +64,8 @@ class Run(object):
     def __init__(self, dirkind):
         self.dirkind = dirkind
         self.reactor = LaunchReactor()
-        self.userdir = tempfile.mkdtemp(prefix="verif-tordata-") if dirkind == "user" else None
+        self.userdir = tempfile.mkdtemp(prefix="verif-tordata-") if dirkind in ("user", "cfg") else None
+        self.extradir = None
         self.conn_d = []
         self.sims = []
         self.fired = []
@@ -78,9 +79,18 @@ class Run(object):
             self.conn_d.append(d)
             return d
         try:
-            d = txtorcon.launch(self.reactor, tor_binary="/nonexistent/fake-tor", data_directory=self.userdir,
+            kw = dict(data_directory=self.userdir)
+            if dirkind == "cfg":
+                # the caller's directory is named by the configuration object handed in (as launch_tor() callers do),
+                # not by the keyword; it holds the caller's files
+                with open(os.path.join(self.userdir, "state"), "w") as f:
+                    f.write("caller's\n")
+                cfg0 = txtorcon.TorConfig()
+                cfg0.DataDirectory = self.userdir
+                kw = dict(_tor_config=cfg0)
+            d = txtorcon.launch(self.reactor, tor_binary="/nonexistent/fake-tor",
                                 connection_creator=connection_creator, timeout=self.TIMEOUT, socks_port=9999,
-                                progress_updates=lambda p, t, s: None)
+                                progress_updates=lambda p, t, s: None, **kw)
             d.addBoth(self.fired.append)
         except Exception:
             self.exc = True
@@ -89,6 +99,8 @@ class Run(object):
         if self.reactor.pproto is not None and dirkind == "temp":
             cfg = self.reactor.pproto.config
             self.datadir = cfg.DataDirectory
+        if self.reactor.pproto is not None and dirkind == "cfg":
+            self.extradir = self.reactor.pproto.config.DataDirectory      # (whatever directory launch() decided to run in)
         self.pp = self.reactor.pproto
 
     def step(self, e):
@@ -175,7 +187,7 @@ class Run(object):
         return self._seen_set
 
     def close(self):
-        for d in (self.userdir, self.datadir):
+        for d in (self.userdir, self.datadir, self.extradir):
             if d and os.path.isdir(d):
                 shutil.rmtree(d, True)
 
